@@ -216,11 +216,11 @@ def first_diff(a, b, ctx=70):
     return "first difference at %d:\n  A: ...%s\n  B: ...%s" % (i, a[lo : i + ctx], b[lo : i + ctx])
 
 
-_NAME_RE = re.compile(r"Name\('([^']*)'\)")
+_NAME_RE = re.compile(r"(\w*Name)\('([^']*)'\)")
 
 
 def canon_fold_names(c):
     """canonical tree text with the spelling of names case-folded (used only
     when a layout changed keyword case: intrinsic / keyword-argument names
     written in another case are the same names)"""
-    return _NAME_RE.sub(lambda m: "Name('%s')" % m.group(1).lower(), c)
+    return _NAME_RE.sub(lambda m: "%s('%s')" % (m.group(1), m.group(2).lower()), c)
